@@ -939,6 +939,26 @@ fn c20_with(case: &Case, refused_duplicates: bool) -> Verdict {
         if shape_p != shape_r {
             return Fails(format!("the printed plan has shape {:?} but the built dispatcher runs shape {:?}", shape_p, shape_r));
         }
+        // every unnamed system has a placeholder of its own: two of them under one label would list one system twice and the other not at all
+        if !infos.iter().any(|o| o.parent.is_none() && o.name.starts_with("unnamed_")) {
+            let mut seen: Vec<(&String, usize)> = vec![];
+            for (s, st) in real.iter().enumerate() {
+                for (g, gr) in st.iter().enumerate() {
+                    for (p, &u) in gr.iter().enumerate() {
+                        if infos[u].name.is_empty() {
+                            let label = &printed[s][g][p];
+                            if let Some((_, other)) = seen.iter().find(|(l, _)| *l == label) {
+                                return Fails(format!(
+                                    "the printed plan shows the placeholder `{}` both for the unnamed {} and for the unnamed {} (stage {} group {} position {}): every system is listed exactly once",
+                                    label, nm(&infos[*other]), nm(&infos[u]), s, g, p
+                                ));
+                            }
+                            seen.push((label, u));
+                        }
+                    }
+                }
+            }
+        }
         for (s, st) in real.iter().enumerate() {
             for (g, gr) in st.iter().enumerate() {
                 for (p, &u) in gr.iter().enumerate() {
